@@ -800,7 +800,7 @@ func selectorOrderCase(c *Case) Verdict {
 	w := &WF{Name: "wf", Sources: map[string]string{}}
 	ports := []string{"a", "b", "c"}
 	k := 1 + t.Choose(simrt.StGen, 3, 0)
-	n := []int{2, 3, 4, 6, 9}[t.Choose(simrt.StGen, 5, 0)]
+	n := []int{2, 3, 4, 6, 9, 20, 40}[t.Choose(simrt.StGen, 7, 0)]
 	s := srcNode(w, "src0", n, "")
 	sel := Node{Name: "sel", Kind: KSelector, Rec: true}
 	var ups []Edge
